@@ -1100,9 +1100,11 @@ static Token *preprocess2(Token *tok) {
   return head.next;
 }
 
+// Defines a macro as the line `#define name buf` does, so that a name
+// with a parameter list (-D'F(x)=x+1') makes a function-like macro.
 void define_macro(char *name, char *buf) {
-  Token *tok = tokenize(new_file("<built-in>", 1, buf));
-  add_macro(name, true, tok);
+  Token *tok = tokenize(new_file("<built-in>", 1, format("%s %s\n", name, buf)));
+  read_macro_definition(&tok, tok);
 }
 
 void undef_macro(char *name) {
